@@ -203,7 +203,7 @@ func ownGoroutineRule(c *core.Ctx, r *core.Report) {
 					return
 				}
 				g := maxGo(caller, depth-1)
-				if _, isGo := in.(*ssa.Go); isGo {
+				if goIn, isGo := in.(*ssa.Go); isGo && !joinedGo(goIn) {
 					g++
 					if where == nil || g > 1 {
 						if g > 1 || where == nil {
@@ -249,4 +249,73 @@ func ownGoroutineRule(c *core.Ctx, r *core.Report) {
 		r.Check(g <= 1, key, pos, "the iteration function is called on the worker's own goroutine (one `go`, the worker's, on every call chain)", sprintf("the iteration function is handed to a goroutine of its own (%d `go` statements on a call chain from the pool to the user call): the worker can move on while the body still runs, and more than `concurrency` iteration functions execute at once", g))
 	}
 	r.Floor("calls of the user's iteration function in internal/workers", n, 1)
+}
+
+// joinedGo: the goroutine started here is waited for before the function that starts it returns — the function
+// literal closes a channel made in that function (a deferred close, or a close on every path) and every return of
+// the function is reached only after a receive from that channel. Such a goroutine does not outlive the call: seen
+// from the worker, the body still runs "inside" the iteration.
+func joinedGo(g *ssa.Go) bool {
+	mc, ok := g.Call.Value.(*ssa.MakeClosure)
+	if !ok {
+		return false
+	}
+	cl, ok := mc.Fn.(*ssa.Function)
+	if !ok {
+		return false
+	}
+	fn := g.Parent()
+	for i, fv := range cl.FreeVars {
+		if i >= len(mc.Bindings) {
+			break
+		}
+		// the captured channel variable, made in the starting function
+		cell, isCell := mc.Bindings[i].(*ssa.Alloc)
+		if !isCell {
+			continue
+		}
+		sts := an.StoresTo(cell)
+		if len(sts) != 1 {
+			continue
+		}
+		if _, isMake := an.Strip(sts[0].Val).(*ssa.MakeChan); !isMake {
+			continue
+		}
+		// closed by the goroutine on every path (a deferred close registered first, or a close dominating its returns)
+		closes := false
+		an.Instrs(cl, func(in ssa.Instruction) {
+			ci, isCall := in.(ssa.CallInstruction)
+			if !isCall || !an.IsBuiltinCall(ci, "close") || len(ci.Common().Args) != 1 {
+				return
+			}
+			ld, isLd := ci.Common().Args[0].(*ssa.UnOp)
+			if !isLd || ld.X != ssa.Value(fv) {
+				return
+			}
+			if _, isDefer := in.(*ssa.Defer); isDefer {
+				closes = closes || dominatesAllReturns(in, cl)
+			} else {
+				closes = closes || dominatesAllReturns(in, cl)
+			}
+		})
+		if !closes {
+			continue
+		}
+		isDone := func(v ssa.Value) bool {
+			if ld, isLd := v.(*ssa.UnOp); isLd && ld.Op == token.MUL {
+				return ld.X == ssa.Value(cell)
+			}
+			return false
+		}
+		all := len(an.Returns(fn)) > 0
+		for _, ret := range an.Returns(fn) {
+			if !returnAfterRecv(fn, ret, isDone, 2) {
+				all = false
+			}
+		}
+		if all {
+			return true
+		}
+	}
+	return false
 }
